@@ -11,10 +11,30 @@ def run(ctx):
     ctx.cov["rule"] = ("case = (graph definition, batch of states, batch size); non-trivial when >= 2 batches are formed and some score is non-zero; distinct by canonical JSON")
     ctx.prove(extra=["AlgoRun"])
     cases, metas = [], []
-    for _ in range(ctx.budget(120, 1200)):
-        gd = G.gen_graph(rng, cap=300)
-        layers, dist = G.ref_bfs(gd, [gd["central"]])
-        verts = sorted(dist)
+    total = ctx.budget(120, 1200)
+    for it in range(total):
+        if it % 6 == 5:
+            # int64 extremes: matrix states with huge entries that differ from the central state by tiny amounts (the count is exact integer
+            # comparison, not a float computation), with and without a modulus
+            n, m = rng.choice([(1, 1), (2, 1), (2, 2), (3, 1), (3, 3)])
+            mod = rng.choice([0, 0, 2**31, 2**31 - 1])
+            big = (lambda: rng.choice([2**24 + 1, 2**30 + rng.randrange(9), 2**31 - 1 - rng.randrange(3), 2**40 + 3, 2**53 + 1, 2**62 + rng.randrange(5), -2**62 - 1, 2**63 - 1,
+                                       -2**63, rng.randrange(10)])) if mod == 0 else (lambda: rng.choice([mod - 1 - rng.randrange(4), 2**24 + rng.randrange(4), rng.randrange(5)]))
+            central = [big() for _ in range(n * m)]
+            gd = {"kind": "matrix", "mats": [[[1 if i == j else 0 for j in range(n)] for i in range(n)]], "modulo": mod, "n": n, "m": m, "central": central}
+            verts = []
+            for _ in range(6):
+                v = list(central)
+                for pos in rng.sample(range(n * m), rng.randint(0, n * m)):
+                    d = rng.choice([1, -1, 2, -3, 64, -128])
+                    lo, hi = (-2**63, 2**63 - 1) if mod == 0 else (0, mod - 1)
+                    v[pos] = min(hi, max(lo, v[pos] + d))
+                verts.append(tuple(v))
+            ctx.count("int64_extreme_cases")
+        else:
+            gd = G.gen_graph(rng, cap=300)
+            layers, dist = G.ref_bfs(gd, [gd["central"]])
+            verts = sorted(dist)
         bs = rng.choice([1, 2, 3, 5, 7, 2**20])
         cfgd = G.gen_config(rng, gd)
         cfgd["batch_size"] = bs
@@ -23,7 +43,7 @@ def run(ctx):
         flat = [list(rng.choice(verts)) for _ in range(k)]
         if rng.random() < 0.5:
             flat[rng.randrange(k)] = list(gd["central"])
-        if rng.random() < 0.3:
+        if rng.random() < 0.3 and max(abs(v) for v in gd["central"]) < 2**62:
             # an all-different state (values shifted), still of the right shape
             flat[rng.randrange(k)] = [v + 1 for v in gd["central"]]
         st = torch.tensor(flat, dtype=torch.int64)
@@ -49,7 +69,7 @@ def run(ctx):
         if [int(v) for v in Predictor(g2, "hamming")(st).tolist()] != ham:
             ctx.violation("property_fails", "scores depend on the batch size", case, True)
         marker = Predictor(graph, lambda x: x.reshape((x.shape[0], -1))[:, 0] * 7 + 1)(st)
-        if [int(v) for v in marker.tolist()] != [s[0] * 7 + 1 for s in flat]:
+        if [int(v) for v in marker.tolist()] != [G.wrap(s[0] * 7 + 1) for s in flat]:        # int64 arithmetic wraps
             ctx.violation("property_fails", "a callable predictor's values come back in a different order or value when batched", case, True)
         cases.append(f"(Build_pred_case {czl(gd['central'])} {czll(flat)} {bs} {czl(ham)} {czl(zero)})")
         metas.append(case)
